@@ -201,6 +201,12 @@ func c12Field(r *Run, kind, where string, t ast.Type, p map[string]any, replay m
 			c12Field(r, kind, where+"[]", t.Array.ValueType, items, replay, tag)
 		}
 	case ast.KindMap:
+		// object keys are strings: a propertyNames schema that no string satisfies makes every non-empty map invalid
+		if pn, ok := p["propertyNames"].(map[string]any); ok {
+			if ty, has := pn["type"]; has && fmt.Sprint(ty) != "string" {
+				r.Violation(kind+"/map-keys-unsatisfiable/"+tag, fmt.Sprintf("%s: propertyNames %s can not be satisfied by any JSON object key", where, short(pn)), replay)
+			}
+		}
 		if ap, ok := p["additionalProperties"].(map[string]any); ok && t.Map != nil {
 			c12Field(r, kind, where+"{}", t.Map.ValueType, ap, replay, tag)
 		}
@@ -406,6 +412,7 @@ func checkC12(r *Run) {
 		o.Depth = 2
 		o.NestedUnions, o.AliasObjects, o.Intersections, o.UniqueNames = false, ci%2 == 0, false, true
 		o.Defaults = false // irgen defaults are not type-checked against their field: kept out of this workload
+		o.IntKeyMaps = true
 		schemas, _ := genSchemas(rng, o)
 		// a guaranteed two-deep cross-package chain
 		if len(schemas) >= 3 {
